@@ -205,6 +205,57 @@ def pbf_concat(files):
     return bytes(out)
 
 
+def corrupt_pbf_block(data, n):
+    """damage the n-th data blob (0-based; blob 0 of the file is the header blob) so that every decoder must
+    reject it (same damage as tools/props/c07.py: a raw blob gets a `raw` length far behind its end — flipped
+    bytes in a raw PrimitiveBlock could leave a VALID block —, a zlib blob gets flipped bytes in the second half
+    of the record: deflate stream / Adler-32)"""
+    bl = pbf_blobs(data)
+    if n + 1 >= len(bl):
+        return None
+    s, e = bl[n + 1]
+    b = bytearray(data)
+    blob = s + 4 + int.from_bytes(data[s:s + 4], 'big')
+    if data[blob] == 0x0a and blob + 6 <= e:
+        b[blob + 1:blob + 6] = b'\xff\xff\xff\xff\x0f'
+        return bytes(b)
+    for q in range(s + (e - s) // 2, min(e, s + (e - s) // 2 + 6)):
+        b[q] ^= 0xff
+    return bytes(b)
+
+
+def add_blob_fault_files(files):
+    """PBF files whose n-th data blob cannot be decoded (Props/C05.lean `delivered_before_fault`,
+    `faulty_blob_delivers_prefix_then_error`): 'ref' = the single-threaded decode of the blobs BEFORE it."""
+    out = {}
+    for name, f in files.items():
+        if f['fmt'] != 'pbf' or 'blob_counts' not in f or len(f['blob_counts']) < 2:
+            continue
+        nb = len(f['blob_counts'])
+        for n in sorted({0, nb // 2, nb - 1}):
+            c = corrupt_pbf_block(f['bytes'], n)
+            if c is None:
+                continue
+            before = sum(f['blob_counts'][:n])
+            out['%s_cb%d' % (name, n)] = {'fmt': 'pbf', 'kind': 'corrupt-blob', 'bytes': c, 'base': name, 'fault': 'corrupt-blob',
+                                          'nblob': n, 'nblobs': nb, 'ref': f['ref'][:before], 'refhdr': f.get('refhdr')}
+    files.update(out)
+    return sorted(out)
+
+
+def blob_fault_scenarios(rng, files, names, quick):
+    """complete reads (k=-1: read until eof or exception) of the files of add_blob_fault_files"""
+    out = []
+    for name in names:
+        n = len(files[name]['bytes'])
+        for _ in range(1):
+            out.append(scen(fmt='pbf', data=name, src=rng.choice(['mem', 'mem', 'file']), cuts=cuts_for(rng, n, rng.choice(['none', 'fixed', 'random'])),
+                            mask=rng.choice([15, 15, 7, 3, 5, 6, 1, 2, 4]), meta=rng.choice([1, 1, 0]), bt=rng.choice(['any', 'single']),
+                            pool=rng.choice([0, 0, 1, 2, 3, 8]), hdr=rng.choice([0, 1, 2]), k=-1, stop=rng.choice(['close', 'dtor']),
+                            pl=rng.choice([0, 1, 2, 3]), ps=1 + rng.below(1000000), trace=0))
+    return out
+
+
 # ------------------------------------------------------------------------------------------
 # harness process handling
 # ------------------------------------------------------------------------------------------
@@ -529,6 +580,26 @@ def check_block(ctx, b, files, report):
     cmp_got = got if meta else [strip_meta(d) for d in got]
     cmp_want = want if meta else [strip_meta(d) for d in want]
     bad = None
+    if f.get('fault') == 'corrupt-blob':
+        # blob `nblob` cannot be decoded (in a pool worker or inline): the caller gets a prefix of the objects of the
+        # blobs BEFORE it (want = their single-threaded decode), never a clean end of data, and a complete read
+        # (k=-1) ends with an exception
+        ctx.count('blob-fault:blob-%s-of-%s' % ('first' if f['nblob'] == 0 else 'last' if f['nblob'] == f['nblobs'] - 1 else 'middle', 'n'))
+        ctx.count('blob-fault:delivered-all-before' if len(cmp_got) == len(cmp_want) else 'blob-fault:delivered-less')
+        why = None
+        if cmp_got != cmp_want[:len(cmp_got)]:
+            why = ('%d objects were delivered; they are not a prefix of the %d objects (mask %d) of the blobs before the corrupt blob'
+                   % (len(got), len(want), mask))
+        elif b.obs.get('eof') == '1':
+            why = 'read() reported a clean end of data'
+        elif kv.get('k', '-1') == '-1' and b.obs.get('error') != '1':
+            why = 'a complete read ended without an exception (%s)' % b.obs.get('first_error')
+        if why:
+            report('blob-fault-order:%s:blob%d-of-%d' % (f['base'], f['nblob'], f['nblobs']),
+                   'PBF file %s with data blob %d of %d corrupted: %s in `%s` [%s]' % (f['base'], f['nblob'], f['nblobs'], why, b.line, env_str(b.env)),
+                   {'file_hex': hx(f['bytes']), 'got': got[:40], 'want_prefix_of': want[:40]})
+            return True
+        return hit
     if full:
         if cmp_got != cmp_want:
             bad = 'delivered %d objects, single-threaded decode filtered by the mask has %d' % (len(got), len(want))
@@ -622,7 +693,9 @@ def run(ctx):
                 'OSMIUM_USE_POOL_THREADS_FOR_PBF_PARSING on/off, one process each) x scenario (file in 4 formats — multi-block PBF by blob '
                 'concatenation, o5m with/without resets — x entity mask 0..15 x read_meta x buffers_type x chunking of the input x memory/file '
                 'input x explicit pool size x header() placement x perturbation level/seed); all with 256-byte initial parser buffers so that '
-                'nested buffers occur; every case runs the real Reader under real threads')
+                'nested buffers occur; every case runs the real Reader under real threads; plus complete reads of the multi-blob PBF files with the '
+                'first / a middle / the last data blob made undecodable (blob-fault monitor: what is delivered is a prefix of the decode of '
+                'the blobs before it, never a clean end of data, the read ends with an exception)')
     ctx.assumptions += [
         'the OS scheduler is not enumerated: the theorems cover all interleavings of the MODEL; the runs validate that behaviours observed '
         'from the implementation (under seeded schedule perturbation) are behaviours of the model and satisfy the property',
@@ -651,6 +724,8 @@ def _run(ctx, rng, quick, hbin, scratch, proof_ok):
     files = gen_files(ctx, hbin, scratch, rng, quick)
     if files is None or not reference_decode(ctx, hbin, scratch, files):
         return
+    base_names = list(files)
+    fault_names = add_blob_fault_files(files)
     for name, f in files.items():
         ctx.count('file:%s:%s' % (f['fmt'], f['kind']))
         ctx.count('reference-objects', len(f['ref']))
@@ -667,10 +742,11 @@ def _run(ctx, rng, quick, hbin, scratch, proof_ok):
     all_blocks = []
     nvalid = 0
     for env in env_grid(rng, quick):
-        sc = scenarios_for(rng, files, quick)
+        sc = scenarios_for(rng, {n: files[n] for n in base_names}, quick)
         if quick:
             rng.shuffle(sc)
             sc = sc[:170]
+        sc += blob_fault_scenarios(rng, files, fault_names, quick)
         blocks = run_process(hbin, scratch, env, defs, sc)
         all_blocks.extend(blocks)
         ctx.count('env:' + env_str(env))
